@@ -6,7 +6,9 @@ from props import netprops
 LEVEL = "proof"
 RULE = ("for valid SPEC-generated exchanges (Valve: info / players / rules units, 0-3 challenge rounds each), every "
         "per-attempt outcome vector over {S silent, F send fault, M malformed, V valid} of length <= r+2 (r in 0..3; quick: "
-        "all vectors on a few bases, thorough: on many) is injected at each unit; attempts are counted on the wire "
+        "all vectors on a few bases, thorough: on many) is injected at each unit — for units that start with a handshake or challenge "
+        "round (Valve and the games on it, GameSpy 3) both at the first exchange of an attempt and at its last one, after the earlier "
+        "ones were answered; attempts are counted on the wire "
         "(initial request of that unit), the result is compared with the fault-free result. Non-trivial = a delivery was "
         "received; distinct = distinct implementation outputs.")
 ASSUMPTIONS = ["timeouts are scripted deliveries (silence); real socket timeouts are C12's subject"]
@@ -53,6 +55,13 @@ def run(rep, tier, seed, replay=None):
         valids = [v for v in netprops.valid_cases(fam, seed + 77, 400 if tier == "quick" else 4000) if fmod.c10_eligible(v)]
         nbase = 6 if tier == "quick" else 80
         bases = valids[:nbase]
+        # every kind of unit the family has (e.g. a fault after the challenge round) must occur in some base
+        have = set(u for b in bases for u in fmod.c10_units(b))
+        for b in valids[nbase:]:
+            new_units = set(fmod.c10_units(b)) - have
+            if new_units:
+                bases.append(b)
+                have |= new_units
         units_desc.append(f"{fam}: units {fmod.c10_units(bases[0]) if bases else []}")
         for bi, b in enumerate(bases):
             for r in range(4):
